@@ -435,7 +435,7 @@ fn aggregate_rows(rows: Vec<StringBinding>, query: &SelectQuery<'_>) -> Vec<Stri
                         values
                             .iter()
                             .filter_map(|value| value.parse::<f64>().ok())
-                            .sum::<f64>()
+                            .fold(0.0_f64, |total, value| total + value)
                             .to_string(),
                     ),
                     "AVG" => {
